@@ -1,4 +1,4 @@
-From BB Require Import Base TM Ref InstrsModel TapeModel ReasonModel StepSim BackstepSound.
+From BB Require Import Base TM Ref InstrsModel TapeModel ReasonModel ReasonInstr StepSim BackstepSound ReasonSound.
 From BB.Properties Require Import C04.
 
 Check C04_bw_halt_refuted_F1 :
@@ -42,3 +42,51 @@ Check C04_plain_round_sound : forall sw comp cfgs cfg bl vs cfgs' indefs bl' q z
   (q = q' -> check_spinout (c_tape cfg) sh (zc z) = None \/
              (check_spinout (c_tape cfg) sh (zc z) = Some false /\ sw_nodrop sw = true)) ->
   round_covered cfgs' indefs bl' (c_tape cfg) sh q z.
+
+Check C04_cant_reach_i_spec : forall sw comp depth g,
+  fst (fst (cant_reach_i sw comp depth g)) = cant_reach sw comp depth g.
+Check C04_frontier_round_sound : forall sw comp, sw_nodrop sw = true ->
+  forall cfgs bl vs j c,
+  (1 <= j)%nat -> rcfg comp j c -> covers cfgs c ->
+  get_valid_steps sw cfgs (get_entrypoints comp) = Ok vs ->
+  vs <> [] /\
+  forall cfgs' indefs bl' sk,
+    step_configs_i vs bl = inl (cfgs', indefs, bl', sk) -> round_outcome comp cfgs' indefs sk j.
+Check C04_bw_halt_refuted_sound : forall sw comp depth s,
+  sw_nodrop sw = true ->
+  halt_box_ok sw comp = true ->
+  to_prog comp (0, 0) <> None ->
+  bw_skips_justified sw comp depth (halt_configs sw) = true ->
+  cant_halt_sw sw comp depth = Ok (BwRefuted s) ->
+  forall n sl, ~ halts_at (to_prog comp) init_config n sl.
+Check C04_bw_blank_refuted_sound : forall sw comp depth s,
+  sw_nodrop sw = true ->
+  cant_blank_sw sw comp depth = Ok (BwRefuted s) ->
+  forall n, ~ erases_at (to_prog comp) init_config n.
+Check C04_bw_spinout_refuted_sound : forall sw comp depth s,
+  sw_nodrop sw = true ->
+  bw_skips_justified sw comp depth zero_reflexive_configs = true ->
+  cant_spin_out_sw sw comp depth = Ok (BwRefuted s) ->
+  forall n, ~ spins_out_at (to_prog comp) init_config n.
+Check C04_bw_refuted_sound_guarded : forall sw comp depth s,
+  sw_nodrop sw = true ->
+  (halt_box_ok sw comp = true -> to_prog comp (0, 0) <> None ->
+   bw_skips_justified sw comp depth (halt_configs sw) = true ->
+   cant_halt_sw sw comp depth = Ok (BwRefuted s) ->
+   forall n sl, ~ halts_at (to_prog comp) init_config n sl) /\
+  (cant_blank_sw sw comp depth = Ok (BwRefuted s) ->
+   forall n, ~ erases_at (to_prog comp) init_config n) /\
+  (bw_skips_justified sw comp depth zero_reflexive_configs = true ->
+   cant_spin_out_sw sw comp depth = Ok (BwRefuted s) ->
+   forall n, ~ spins_out_at (to_prog comp) init_config n).
+Check C04_no_blank_skip_justified : forall sw comp depth g,
+  bw_no_blank_skip sw comp depth g = true -> bw_skips_justified sw comp depth g = true.
+Check C04_guards_nonvacuous :
+  (sw_nodrop sw_f2 = true /\ halt_box_ok sw_f2 ex_halt_prog = true /\
+   to_prog ex_halt_prog (0, 0) <> None /\
+   bw_skips_justified sw_f2 ex_halt_prog 40 (halt_configs sw_f2) = true /\
+   cant_halt_sw sw_f2 ex_halt_prog 40 = Ok (BwRefuted 12)) /\
+  cant_blank_sw sw_f2 ex_blank_prog 40 = Ok (BwRefuted 28) /\
+  (bw_no_blank_skip sw_f2 ex_spin_prog 40 zero_reflexive_configs = false /\
+   bw_skips_justified sw_f2 ex_spin_prog 40 zero_reflexive_configs = true /\
+   cant_spin_out_sw sw_f2 ex_spin_prog 40 = Ok (BwRefuted 10)).
